@@ -11,6 +11,7 @@ typedef struct vf_Log Log; typedef struct vf_Fun Fun; typedef struct vf_Cnt Cnt;
 typedef struct etl_reference_wrapper_int RW; typedef struct etl_detail_function_ref_false_int_int FR;
 typedef struct etl_inplace_function_int_int_16_8 IF; typedef struct etl_inplace_function_int_int_32_8 IFW;
 typedef struct etl_detail_inplace_func_vtable_int_int VT;
+typedef struct etl_tuple_vf_Mk_int TMk; typedef struct etl_pair_vf_Mk_int PMk;
 
 /* the log behind the free functions with a fixed signature (EXTERNAL ghost hook vf::g_log of the driver) */
 Log vf_glog;
@@ -435,4 +436,31 @@ void h_invoke_memptr(void) { VF_INPUT(Log, l); VF_INPUT(int, x); VF_INPUT(int, k
   else if (w == 3) VF_ASSERT(iv_memdata(&ob) == &ob.data && log_eq(&l, &o), "invoke(&C::m, obj) is obj.m itself");
   else VF_ASSERT(iv_memdata_ptr(&ob) == d && log_eq(&l, &o), "invoke(&C::m, &obj) delivers obj.m");
   VF_ASSERT(ob.log == &l && ob.k == k && ob.data == d, "the object is unchanged");
+  VF_REACH(); }
+
+/* ---- value categories, observed through values: Mk's move operations mark their source with v == -1, copies leave it alone.
+ * get<I>(tuple&&) / get<I>(pair&&) must hand out an rvalue (initialising from it MOVES), get<I>(tuple&) an lvalue (COPIES);
+ * apply and make_from_tuple forward the tuple's value category to the callee / constructor. */
+/*@GROUP name=value_category props=C20,C02 kind=F unwind=3@*/
+void h_value_category(void) { VF_INPUT(int, a); VF_INPUT(int, b); VF_INPUT(unsigned char, which); __CPROVER_assume(a != -1 && which < 16);
+  TMk t; PMk p; mk_tuple(&t, a, b); mk_pair(&p, a, b);
+  VF_ASSERT(mk_tval(&t) == a && mk_pval(&p) == a, "tuple/pair construction from an rvalue element stores its value");
+  switch (which) {
+  case 0: VF_ASSERT(mk_tget_rv(&t) == a && mk_tval(&t) == -1, "C20: get<0>(tuple&&) is an rvalue: initialising from it moves the element out"); break;
+  case 1: VF_ASSERT(mk_tget_lv(&t) == a && mk_tval(&t) == a, "C20: get<0>(tuple&) is an lvalue: initialising from it copies"); break;
+  case 2: VF_ASSERT(mk_tget_clv(&t) == a && mk_tval(&t) == a, "C20: get<0>(tuple const&) copies"); break;
+  case 3: VF_ASSERT(mk_pget_rv(&p) == a && mk_pval(&p) == -1, "C20: get<0>(pair&&) is an rvalue: initialising from it moves the element out"); break;
+  case 4: VF_ASSERT(mk_pget_lv(&p) == a && mk_pval(&p) == a, "C20: get<0>(pair&) is an lvalue: initialising from it copies"); break;
+  case 5: VF_ASSERT(mk_apply_rv(&t) == 1, "C20: apply(f, tuple&&) passes the elements as rvalues"); break;
+  case 6: VF_ASSERT(mk_apply_lv(&t) == 2, "C20: apply(f, tuple&) passes the elements as lvalues"); break;
+  case 7: VF_ASSERT(mk_apply_clv(&t) == 3, "C20: apply(f, tuple const&) passes the elements as const lvalues"); break;
+  case 8: VF_ASSERT(mk_from_rv(&t) == a && mk_tval(&t) == -1, "C20: make_from_tuple<T>(tuple&&) moves the elements into the constructor"); break;
+  case 9: VF_ASSERT(mk_from_lv(&t) == a && mk_tval(&t) == a, "C20: make_from_tuple<T>(tuple&) copies the elements"); break;
+  case 10: { TMk u; mk_tmove(&u, &t); VF_ASSERT(mk_tval(&u) == a && mk_tval(&t) == -1, "C20: tuple move construction moves each element"); } break;
+  case 11: { TMk u; mk_tcopy(&u, &t); VF_ASSERT(mk_tval(&u) == a && mk_tval(&t) == a, "C20: tuple copy construction copies each element"); } break;
+  case 12: { PMk q; mk_pmove(&q, &p); VF_ASSERT(mk_pval(&q) == a && mk_pval(&p) == -1, "C20: pair move construction moves each element"); } break;
+  case 13: { PMk q; mk_pcopy(&q, &p); VF_ASSERT(mk_pval(&q) == a && mk_pval(&p) == a, "C20: pair copy construction copies each element"); } break;
+  case 14: { PMk q; mk_pair(&q, b, a); mk_passign_rv(&q, &p); VF_ASSERT(mk_pval(&q) == a && mk_pval(&p) == -1, "C20: pair move assignment moves each element"); } break;
+  default: { PMk q; mk_pair(&q, b, a); mk_passign_lv(&q, &p); VF_ASSERT(mk_pval(&q) == a && mk_pval(&p) == a, "C20: pair copy assignment copies each element"); } break;
+  }
   VF_REACH(); }
